@@ -170,8 +170,11 @@ Definition step (s : st) (e : ev) : option st :=
       Some {| msg_mu := None; frame_mu := frame_mu s; closed := closed s; closing := closing s; close_sent := close_sent s; client := client s;
               thrs := upd (thrs s) t (ret th (negb (closed s))); wire := wire s |}
     | DoClose =>
-      Some {| msg_mu := msg_mu s; frame_mu := frame_mu s; closed := true; closing := closing s; close_sent := close_sent s; client := client s;
-              thrs := upd (thrs s) t (if client s then set_ph th ForceFrame else ret th true); wire := wire s |}
+      (* conn.go close(): under closeMu; when the connection is already closed it returns at once, so msgWriter.close() (the force-lock of
+         writeFrameMu on a client) runs at most once per connection *)
+      if closed s then Some (with_thr s t (ret th true))
+      else Some {| msg_mu := msg_mu s; frame_mu := frame_mu s; closed := true; closing := closing s; close_sent := close_sent s; client := client s;
+                   thrs := upd (thrs s) t (if client s then set_ph th ForceFrame else ret th true); wire := wire s |}
     | ForceFrame =>
       match frame_mu s with
       | Some _ => None                                                                (* blocks until the frame in flight has been given up *)
